@@ -850,7 +850,8 @@ TokAt(L, k) == LET p == TokPos(L, k) IN L[p[1]][p[2]]
 ReplToks == <<NA, "-1", "0", "2147483647", "1e308", "abc", "sel2", HASH>>
 
 ApplyFault(L, ft) ==
-  CASE ft.kind = "trunc" ->
+  CASE ft.kind = "noop" -> L
+    [] ft.kind = "trunc" ->
          LET p == TokPos(L, ft.k) IN SubSeq(L, 1, p[1] - 1) \o << SubSeq(L[p[1]], 1, p[2]) >>
     [] ft.kind = "corrupt" ->
          LET p == TokPos(L, ft.k) IN [L EXCEPT ![p[1]][p[2]] = ft.t]
@@ -861,16 +862,23 @@ ApplyFault(L, ft) ==
     [] ft.kind = "dupline"  -> SubSeq(L, 1, ft.k) \o <<L[ft.k]>> \o SubSeq(L, ft.k + 1, Len(L))
     [] ft.kind = "dropline" -> SubSeq(L, 1, ft.k - 1) \o SubSeq(L, ft.k + 1, Len(L))
 
-\* all the faults of a file (corruptions that would not change the token are left out)
-FaultList(L, c) ==
-  LET N == NTok(L) IN
-     [k \in 1..(N - 1) |-> [kind |-> "trunc", k |-> k, t |-> ""]]
-  \o Flat([k \in 1..(N - 1) |-> SelectSeq([r \in DOMAIN ReplToks |-> [kind |-> "corrupt", k |-> k + 1, t |-> ReplToks[r]]],
-                                          LAMBDA ft : ft.t # TokAt(L, k + 1))])
-  \o [k \in 1..(N - 1) |-> [kind |-> "emptyline", k |-> k + 1, t |-> ""]]
-  \o << [kind |-> "wrongclass", k |-> 1, t |-> IF c = "Table" THEN "Db" ELSE "Table"], [kind |-> "wrongclass", k |-> 1, t |-> "abc"] >>
-  \o [l \in 1..(Len(L) - 1) |-> [kind |-> "dupline", k |-> l + 1, t |-> ""]]
-  \o [l \in 1..(Len(L) - 1) |-> [kind |-> "dropline", k |-> l + 1, t |-> ""]]
+\* the faults of a file, numbered 1..NFaults(L): truncations, corruptions (8 replacement tokens per token; a replacement
+\* by the same token is the fault "noop"), empty lines, 2 wrong class tags, duplicated lines, dropped lines
+NFaults(L) == 10 * (NTok(L) - 1) + 2 + 2 * (Len(L) - 1)
+FaultAt(L, c, j) ==
+  LET n1 == NTok(L) - 1
+      nl == Len(L) - 1
+  IN IF j <= n1 THEN [kind |-> "trunc", k |-> j, t |-> ""]
+     ELSE IF j <= 9 * n1 THEN
+          LET idx == j - n1 - 1
+              k   == (idx \div 8) + 2
+              t   == ReplToks[(idx % 8) + 1]
+          IN [kind |-> IF t = TokAt(L, k) THEN "noop" ELSE "corrupt", k |-> k, t |-> t]
+     ELSE IF j <= 10 * n1 THEN [kind |-> "emptyline", k |-> j - 9 * n1 + 1, t |-> ""]
+     ELSE IF j = 10 * n1 + 1 THEN [kind |-> "wrongclass", k |-> 1, t |-> IF c = "Table" THEN "Db" ELSE "Table"]
+     ELSE IF j = 10 * n1 + 2 THEN [kind |-> "wrongclass", k |-> 1, t |-> "abc"]
+     ELSE IF j <= 10 * n1 + 2 + nl THEN [kind |-> "dupline", k |-> j - (10 * n1 + 2) + 1, t |-> ""]
+     ELSE [kind |-> "dropline", k |-> j - (10 * n1 + 2 + nl) + 1, t |-> ""]
 
 \* events of the transcribed reader that are memory-unsafe or unbounded in the real code
 UnsafeEvents == {"vecOverflow", "allocNegative", "allocHuge", "allocUnbounded", "loopUnbounded", "writeUnsized", "useAfterClear", "gridSizeMismatch", "badEnum", "badDims", "emptyPolyline"}
